@@ -172,6 +172,7 @@ inductive SOp where
   | front
   | back
   | next (e : Nat)
+  | setValue (e : Nat) (v : Int)     -- `e.Value = v` through the node handle
 
 /-- Run one call; `none` = Go panic (or the `Swap` loop not terminating). -/
 def SSt.apply (s : SSt) : SOp → Option (SSt × DRes)
@@ -190,6 +191,7 @@ def SSt.apply (s : SSt) : SOp → Option (SSt × DRes)
   | .front => some (s, .ptr s.head)
   | .back => some (s, .ptr s.tail)
   | .next e => some (s, .ptr (s.next.get e))
+  | .setValue e v => some ({ s with val := s.val.set e v }, .unit)
 
 def SSt.run : SSt → List SOp → Option (SSt × List DRes)
   | s, [] => some (s, [])
@@ -227,6 +229,7 @@ def parseSOp (s : SSt) (ts : List String) : Option SOp :=
   | ["front"] => pure .front
   | ["back"] => pure .back
   | ["next", e] => do let e ← s.parseHandle e; pure (.next e)
+  | ["setv", e, v] => do let e ← s.parseHandle e; let v ← v.toInt?; pure (.setValue e v)
   | _ => none
 
 /-- One protocol line: `none` = unparsable, `some none` = panic.  The oracle runs exactly the
